@@ -49,9 +49,11 @@ CustomPool ==
    ELSE {})
 SizePool == {Sz(n, 0, 0) : n \in StdPool} \cup CustomPool
 BadCustomPool ==
-  {Sz("Custom", 0, 200000), Sz("Custom", 100000, -5000), Sz("Custom", 12600, 100000), Sz("Custom", 100000, 558900)}
-  \cup (IF Scale >= 3 THEN {Sz("Custom", -1, -1), Sz("Custom", 100000, 0), Sz("Custom", 100000, 12699),
-                            Sz("Custom", 558801, 100000), Sz("Custom", 1000000, 1000000)} ELSE {})
+  {Sz("Custom", 0, 200000), Sz("Custom", 100000, -5000), Sz("Custom", 12600, 100000), Sz("Custom", 100000, 558900),
+   Sz("Custom", 100000, 12699)}       \* 1 um below the bound: stored as the bound itself (class "bound-rounding")
+  \cup (IF Scale >= 3 THEN {Sz("Custom", -1, -1), Sz("Custom", 100000, 0), Sz("Custom", 12680, 100000),
+                            Sz("Custom", 558801, 100000), Sz("Custom", 558820, 100000),
+                            Sz("Custom", 1000000, 1000000)} ELSE {})
 
 Mar(t, r, b, l) == [mt |-> t, mr |-> r, mb |-> b, ml |-> l]
 MarPool == {Mar(25400, 25400, 25400, 25400), Mar(10000, 20000, 30000, 40000)}
@@ -154,7 +156,8 @@ Emit == Len(hist) < Depth \/ PrintT(<<"WZCASE", ToJson(hist)>>)
 Inv_MostRecent == \A f \in Fields : st[f] = shadow[f]
 \* every state reached through valid requests is one that a single SetPageSettings installs in a new
 \* document, so Mode "pairs" tests the implementation on every one of them
-Clean(s) == s.mt >= 0 /\ s.mr >= 0 /\ s.mb >= 0 /\ s.ml >= 0 /\ s.hd >= 0 /\ s.fd >= 0 /\ s.gut >= 0 /\ s.gc >= 0
+Clean(s) == /\ s.mt >= 0 /\ s.mr >= 0 /\ s.mb >= 0 /\ s.ml >= 0 /\ s.hd >= 0 /\ s.fd >= 0 /\ s.gut >= 0 /\ s.gc >= 0
+            /\ (s.n = "Custom" => ~OutOfRange(s.w, s.h))
 Inv_Installable == Clean(st) => st \in StatePool
 \* SpecMC explores onward only from states reached through valid requests (a CONSTRAINT): the outcome of an
 \* accepted open-class request (a negative value) is generated and checked, but not used as a starting point
@@ -165,7 +168,7 @@ Inv_SizeNames == /\ st.n \in StdNames \cup {"Custom"}
                  /\ (st.n = "Custom" => Recognise(st.w, st.h) = "Custom")
 \* orientation is one of the two; custom dimensions stay inside the documented range
 Inv_Range == /\ st.or \in Orients
-             /\ (st.n = "Custom" => ~OutOfRange(st.w, st.h))
+             /\ (st.n = "Custom" => ~(TooSmall(st.w) \/ TooSmall(st.h) \/ TooLarge(st.w) \/ TooLarge(st.h)))
 \* classification of the argument pools (it does not depend on the state, so it is checked once, as an
 \* assumption, on the state of a new document and on the all-default state): documented-invalid requests
 \* are rejected and change nothing, valid ones are accepted and read back as given, open ones go both ways
@@ -180,7 +183,13 @@ RequestsOK(s) ==
 \* every argument class the property speaks of occurs in the pool (non-vacuity of the classification)
 ClassesCovered ==
   \A c \in InvalidClasses \cup OpenClasses \cup {"valid", "grid-unnamed"} : \E op \in ActionOps : ArgClass(op) = c
-ASSUME RequestsOK(InitSt) /\ RequestsOK(DefaultSt) /\ ClassesCovered
+\* every operation occurs with valid arguments, every setter that documents invalid arguments also with those
+\* (so none of the action properties below is vacuous for any operation)
+OpsCovered ==
+  /\ \A n \in Setters \cup Defaulter \cup ReadOnly : \E op \in ActionOps : op.op = n /\ ArgClass(op) = "valid"
+  /\ \A n \in Setters \ {"ClearDocGrid", "SetPageSize"} : \E op \in ActionOps : op.op = n /\ Rejected(InitSt, op)
+  /\ \E a, b \in StatePool : a.or # b.or /\ a.n = "Custom" /\ b.n = "Custom" /\ a.w # a.h
+ASSUME RequestsOK(InitSt) /\ RequestsOK(DefaultSt) /\ ClassesCovered /\ OpsCovered
 
 \* a rejected call changes nothing
 Act_Rejected == [][~last'.acc => st' = st]_vars
